@@ -465,6 +465,9 @@ type IdleOpts struct {
 	Watchdog time.Duration
 	// PoolMustBeEmpty: in-flight messages count as pending work.
 	PoolMustBeEmpty bool
+	// IgnoreReplicators: do not consult the replicators' own bookkeeping
+	// (used where that bookkeeping itself is under test).
+	IgnoreReplicators bool
 	// Extra fingerprint that must stay unchanged during the window.
 	Fingerprint func() string
 }
@@ -485,7 +488,7 @@ func (w *World) WaitIdle(opts IdleOpts) bool {
 	lastFP := ""
 	sleep := 200 * time.Microsecond
 	for {
-		ok := w.H.Pending() == 0 && (!opts.PoolMustBeEmpty || w.InflightLen() == 0) && w.ReplicatorsIdle()
+		ok := w.H.Pending() == 0 && (!opts.PoolMustBeEmpty || w.InflightLen() == 0) && (opts.IgnoreReplicators || w.ReplicatorsIdle())
 		gen := w.H.Generation()
 		fp := ""
 		if ok && opts.Fingerprint != nil {
